@@ -6,11 +6,13 @@ META = {
     'id': 'C15',
     'level': 'proof',
     'technique': 'Coq proof (induction on rule lists and glob patterns; model proved equal to a specification function '
-                 'written from the property text) + source-to-Coq translation of the rule regex pieces, separators, '
+                 'written from the property text; invariant proof of the iterative wildcard matcher) + source-to-Coq translation of the '
+                 'rule regex pieces, separators, the statements of wildcardMatch, '
                  'default verdict and loop shape + differential run of the extracted model and specification oracle '
                  'against the real CategoryFilter',
     'text': 'Theorems (Properties_C15.v): the filter verdict is that of the LAST rule whose glob pattern and optional type '
-            'suffix match, default pass; the glob matcher is sound and complete w.r.t. a declarative relation and the '
+            'suffix match, default pass; the iterative matcher of the code (wildcardMatch, transcribed as glob_iter) terminates within '
+            'its fuel and is sound and complete w.r.t. a declarative glob relation and the '
             'decomposition along the stars (every other character literal); ";" and newline are interchangeable; rejected '
             'lines contribute nothing; typed rules never affect other types, fatal is decided by untyped rules only. They are '
             're-checked on every run against the constants translated from categoryfilter.cpp/logmessage.h, and the extracted '
@@ -19,10 +21,9 @@ META = {
             'tools/s2c/category.py (regex translation of categoryfilter.cpp and of the stringToQtMsgType table), extraction '
             '(ExtrOcamlBasic only) and ocaml/drv_category.ml, harness/h_category.cpp (also offers Qt own QLoggingCategory as a cross-check on the rule subset Qt supports). '
             'Modelled, not verified: '
-            'QRegularExpression/PCRE2 (the rule regex is modelled as: last "=", ASCII \\s trimming, lazy name + optional suffix; '
-            'escape + ".*" + \\A..\\z/DotMatchesEverything as a glob over UTF-16 code units), QString::replace/split, '
-            'QString::fromUtf8 of the category. Outside the model: ill-formed UTF-16 in rules (lone surrogates), NUL in rule '
-            'names, PCRE match limits on pathological patterns (many stars x very long names).',
+            'QRegularExpression/PCRE2 for the LINE regex only (modelled as: last "=", ASCII \\s trimming, lazy name + optional suffix), '
+            'QString::replace/split/at/size (lists of UTF-16 code units; the indices p,t,star,mark of wildcardMatch are represented by list '
+            'suffixes), QString::fromUtf8 of the category. Outside the model: ill-formed UTF-16 in rules (lone surrogates), NUL in rule names.',
     'design_ref': 'DESIGN.md section 4, C15',
     'engine': 'coq+extraction+harness',
 }
@@ -199,6 +200,44 @@ def gen_case(rng, hist, chist):
     for c in cats:
         if '\n' in c:
             chist['contains_lf'] += 1
+    return rules, cats
+
+
+def gen_many_stars(rng, mh):
+    """patterns with up to 40 wildcards against matching and near-miss categories up to 255 characters: the family
+    on which a backtracking regex engine gives up (PCRE2 match limit) and answers 'no match'"""
+    k = rng.choice([1, 2, 3, 5, 8, 12, 16, 20, 21, 22, 23, 24, 28, 32, 36, 40])
+    mh['stars_%02d_%02d' % (k // 10 * 10, k // 10 * 10 + 9)] += 1
+    if rng.random() < 0.5:
+        segs = ['a'] * k + ['b']                       # the canonical  *a*a...*a*b
+    else:
+        segs = [rng.choice(['a', 'b', 'ab', 'a', '.', 'x', 'ba', 'aa']) for _ in range(k)] + [rng.choice(['b', 'a', 'end', ''])]
+    lead = rng.choice(['*', '*', ''])
+    pat = lead + '*'.join(segs)
+    rules = rng.choice(['', 'z*=true;', '*=true\n']) + pat + rng.choice(['', '', '.debug', '.info']) + '=false'
+    cats = []
+    for _ in range(5):
+        r = rng.random()
+        if r < 0.30:                                   # matching: every star filled with a short filler
+            c = ''.join(seg + rng.choice(['', '', 'a', 'aa', 'b', 'ab', 'xa', 'a' * rng.randint(0, 9)]) for seg in segs[:-1]) + segs[-1]
+            if lead:
+                c = rng.choice(['', 'a', 'zz']) + c
+            mh['cat_filled'] += 1
+        elif r < 0.55:                                 # a^n b : matches the canonical pattern iff n >= k
+            c = 'a' * rng.choice([k - 1, k, k + 1, 20, 50, 100, 200, 254]) + 'b'
+            mh['cat_a^n_b'] += 1
+        elif r < 0.70:                                 # near miss: the last literal is missing
+            c = 'a' * rng.choice([k, 50, 200, 255])
+            mh['cat_a^n'] += 1
+        elif r < 0.85:                                 # near miss: one character too many / one dropped
+            c = ''.join(seg + rng.choice(['', 'a', 'b']) for seg in segs)
+            i = rng.randrange(len(c) + 1)
+            c = c[:i] + rng.choice(['', 'x', 'b', 'a']) + c[i + 1:]
+            mh['cat_perturbed'] += 1
+        else:
+            c = ''.join(rng.choice('ab') for _ in range(rng.randint(0, 255)))
+            mh['cat_random_ab'] += 1
+        cats.append(c[:255])
     return rules, cats
 
 
@@ -394,7 +433,7 @@ def run():
                    'harness/h_category.cpp; QRegularExpression/PCRE2, QString::replace/split/fromUtf8 are modelled, not verified']
     chk.assumptions = ['rule text and category are well-formed UTF-16/UTF-8 (no lone surrogates) and the category has no NUL (it is a C string)',
                        'PCRE2 \\s without the UCP option is exactly HT LF VT FF CR SPACE (probed: U+00A0, U+2003, U+0085, U+001C are name characters)',
-                       'PCRE2 match limits are not reached (patterns with many stars against very long categories are outside the generator)']
+                       'categories are at most a few hundred characters (the matcher is quadratic at worst; the generator stops at 255 for the many-wildcard family)']
     chk.proof(vlib.proof_leg('Properties_C15', ['category']))
     model = vlib.build_model('category')
     impl = vlib.build_harness('category')
@@ -411,6 +450,9 @@ def run():
     n_fixed = len(cases)
     for _ in range(60000 if thorough else 6000):
         cases.append(gen_case(rng, hist, chist))
+    mh = collections.Counter()
+    for _ in range(6000 if thorough else 600):
+        cases.append(gen_many_stars(rng, mh))
 
     rc, out_i, err_i = run_impl(impl, cases)
     if rc != 0 or len(out_i) != len(cases):
@@ -481,6 +523,7 @@ def run():
                'msg_type': TYPES[ti], 'implementation_verdicts': v, 'specified_verdicts': spec,
                'types_order': 'debug warning critical fatal info',
                'rules_as_parsed_by_the_specification': run_model(model, [c], 'srules')[0],
+               'wildcards_in_the_rule_text': rules.count('*'), 'category_length': len(cat),
                'falsified_cases_before_shrinking': n_before}
         kind, cls = 'verdict', None
         if '\n' in cat and v == legacy and v != spec:
@@ -620,7 +663,7 @@ def run():
                     'distinct_nontrivial': len(nontrivial),
                     'rule': 'corpus (LF-in-category regression cases) + every pattern over {a,b,*} of length<=3 x every category over {a,b} of length<=4 + every list of '
                             '%d rules over 24 small rules + random rule texts (wildcards at start/middle/end/both/multiple, typed/untyped/odd '
-                            'suffixes, regex metacharacters, blanks, CRLF, garbage and mutated lines, mixed separators, odd values) x 3-6 '
+                            'suffixes, regex metacharacters, blanks, CRLF, garbage and mutated lines, mixed separators, odd values) + the many-wildcard family (up to 40 stars, matching and near-miss categories up to 255 chars) x 3-6 '
                             'categories (instantiated from the patterns, perturbed, pool, empty, default, very long, with LF) x 5 types; '
                             'non-trivial = distinct (rules, category) where at least one type is blocked' % (3 if thorough else 2),
                     'corpus_cases': n_corpus, 'fixed_cases': n_fixed,
@@ -636,6 +679,7 @@ def run():
                                       'differences': len(qt_diff), 'pattern_shapes': dict(qh),
                                       'subset': 'ASCII, one "=", no blank inside the name, "*" only at start and/or end, no backslash or percent sign (QSettings key unescaping), fatal excluded, categories '
                                                 'not qt*/empty, "*suffix" rules only where the first occurrence of the suffix is the final one'},
+                    'many_wildcards_family_histogram': dict(mh),
                     'rule_generator_histogram': dict(hist), 'category_generator_histogram': dict(chist)})
     chk.cov.update(extra)
     idx = [n_fixed + 1, n_fixed + 2, len(cases) // 2]
